@@ -8,6 +8,7 @@ import GeoVerif.Lemmas.C14
 import GeoVerif.Properties.C01
 import GeoVerif.Properties.C02
 import GeoVerif.Properties.C05
+import GeoVerif.Properties.C06
 import GeoVerif.Properties.C07
 import GeoVerif.Properties.C08
 import GeoVerif.Properties.C03
